@@ -183,3 +183,40 @@ CONTRACTS['score_cores_are_nested'] = Contract(
 CONTRACTS['score_cores_are_nested'].source = SRC
 CONTRACTS['score_cores_are_nested'].callees = {'score_wu': callee_from_clauses('score_wu', ['CIJ', 's'], list(_KS.requires), [e for e in _KS.ensures if e[0] != 'argument-untouched'], [_M, ('int',)],
                                                                                  ghosts={'n0': 'len(CIJ)', 'S': 'Scur'}, rebinds={'alive': ('bvec', 'n0')})}
+
+
+# ---- C12, transform='inv': the same producer / consumer link with the connection lengths L = 1/w (ghost) ------------------------------------------
+_FWI, _FPI = _f.CONTRACTS['distance_wei_floyd:inv'], _f.CONTRACTS['distance_wei_floyd:paths:inv']
+_reqi = {c[0]: c for c in list(_FWI.requires) + list(_FPI.requires)}
+
+
+def _setup_pfi(eng, st):
+    from engine.pyvc.core import invl, invl_axiom
+    _setup_pf(eng, st)
+    G = z3.Const('G0', A2R)
+    st.pc.append(invl_axiom(G))
+    st.ghost['L'] = alloc(st, 2, invl(G), (st.ghost['n0'], st.ghost['n0']), REAL)
+
+
+CONTRACTS['path_from_floyd_inv'] = Contract(
+    'corollary_src.distances', 'path_from_floyd_inv', ['adjacency', 's', 't'], setup=_setup_pfi,
+    requires=list(_reqi.values()) + [('s-t-are-nodes', 'And(inr(s, n0), inr(t, n0))')],
+    ghost_before={'SPL, hops, Pmat = distance_wei_floyd(*': "assume(lemma_walks(L, n0))",
+                  'return retrieve_shortest_path(*': "; ".join("check('%s', %s)" % (nm, _N2 % body) for nm, body in [
+                      ('FC-hops-nonnegative', "hops[v, w] >= 0"),
+                      ('FC-zero-hops-iff-diagonal-or-unreachable', "iff(hops[v, w] == 0, Or(v == w, Not(Or(v == w, sdist(L, v, w) >= 1))))"),
+                      ('FC-next-node-along-a-connection', "implies(hops[v, w] > 0, And(inr(Pmat[v, w], n0), L[v, Pmat[v, w]] != 0))"),
+                      ('FC-hops-drop-by-one', "implies(hops[v, w] > 0, hops[Pmat[v, w], w] == hops[v, w] - 1)"),
+                      ('FC-length-drops-by-the-connection', "implies(hops[v, w] > 0, SPL[v, w] == L[v, Pmat[v, w]] + SPL[Pmat[v, w], w])"),
+                      ('FC-target-still-reachable', "implies(hops[v, w] > 0, Or(Pmat[v, w] == w, sdist(L, Pmat[v, w], w) >= 1))")])},
+    ensures=[])
+CONTRACTS['path_from_floyd_inv'].source = SRC
+CONTRACTS['path_from_floyd_inv'].callees = {
+    'distance_wei_floyd': callee_from_clauses('distance_wei_floyd', ['adjacency', 'transform'], list(_reqi.values()),
+                                              [e for e in list(_FWI.ensures) + list(_FPI.ensures) if e[0] != 'argument-untouched'],
+                                              [_M, _M, ('imat', 'n0', 'n0')], ghosts={'n0': 'len(adjacency)', 'L': 'inverse_lengths(adjacency)'}),
+    'retrieve_shortest_path': callee_from_clauses('retrieve_shortest_path', ['s', 't', 'hops', 'Pmat'], list(_RSP.requires), [], [],
+                                                  ghosts={'n0': 'len(hops)', 'L': 'L', 'SPL': 'SPL',
+                                                          'conn': "lam2(lambda x, y: (1 if L[x, y] != 0 else 0), len(hops))",
+                                                          'reach': "lam2(lambda x, y: (1 if Or(x == y, sdist(L, x, y) >= 1) else 0), len(hops))"}),
+}
